@@ -519,6 +519,49 @@ def describe(case):
     return out
 
 
+def long_windows(rep, rng, tier):
+    """A call that encloses thousands of records of its thread must not abort the stream either: windows of the lengths
+    tools/kdv/mined.py proposes (around 1024 and 4096; on a changed source around every number the source mentions), through
+    the real feed_generator; oracle on the code alone: no exception, and the call is reported once."""
+    from .. import mined
+    sec = rep.section('long-windows')
+    changed = mined.changed_files()
+    lengths = mined.window_lengths(tier, changed)
+    budget = 6000000 if (tier != 'quick' or changed) else 200000
+    sec['rule'] = ('BSC_open (one lookup) / BSC_read windows enclosing n scheduler records of the same thread, n from the mined window '
+                   'lengths (%d lengths, %d records in all at most): the stream must not raise and must report the call once'
+                   % (len(lengths), budget))
+    spent = 0
+    bad = set()
+    for li, nested in enumerate(lengths):
+        for name in (('BSC_open', 'BSC_read') if nested <= 4200 else (('BSC_open', 'BSC_read')[li % 2],)):
+            if spent + nested > budget:
+                continue
+            spent += nested
+            s = P.Stream(rng)
+            a = P.good_args(name) or [1, 2, 3, 4]
+            s.ev(name, P.START, 11, a)
+            if name == 'BSC_open':
+                s.lookup(11, '/long/window', 0x41)
+            for i in range(nested - (1 if name == 'BSC_open' else 0)):
+                s.ev('MACH_SCHED', P.NONE, 11, [0, 0x1000 + i, 0x2222, 0x3333])
+            s.ev(name, P.END, 11, [0, 7, 0, 0])
+            case = P.make_case_from(s.recs)
+            outs, err, parser = P.run_traces(case)
+            sec['cases'] += 1
+            calls = [o for o in outs if o['name'] == name]
+            if err != '-' or len(calls) != 1:
+                if name in bad:
+                    continue
+                bad.add(name)
+                rep.add_failure('abort:long-window:%s' % (err if err != '-' else 'call-not-reported'),
+                                '%s enclosing %d records of its thread: %s' % (name, nested, 'the stream raises ' + err if err != '-' else
+                                                                            'the call is reported %d times' % len(calls)),
+                                {'section': 'long-windows', 'decoder': name, 'nested': nested, 'start': a})
+            else:
+                sec['distinct_nontrivial'] += 1
+
+
 def correspondence(rep, rng, tier):
     P.section_pipeline(rep, rng, tier, oracle_fn=make_oracle(need_ascii=True))
     shrink(rep, 'pipeline', make_oracle(need_ascii=True))
@@ -526,6 +569,7 @@ def correspondence(rep, rng, tier):
     shrink(rep, 'context-drop', make_oracle())
     section_indomain(rep, rng, tier)
     section_findings(rep)
+    long_windows(rep, rng, tier)
     shrink(rep, 'foreign-record', make_oracle())
     st = D.stats()
     rep.notes.append('translator: %d of %d registered handlers compiled to IR; hand-modelled: %s'
@@ -536,6 +580,22 @@ def replay(path):
     with open(path) as fd:
         r = json.load(fd)
     rp = r.get('replay') or {}
+    if rp.get('section') == 'long-windows':
+        s = P.Stream(None)
+        name, nested, a = rp['decoder'], rp['nested'], rp['start']
+        s.ev(name, P.START, 11, a)
+        if name == 'BSC_open':
+            s.lookup(11, '/long/window', 0x41)
+        for i in range(nested - (1 if name == 'BSC_open' else 0)):
+            s.ev('MACH_SCHED', P.NONE, 11, [0, 0x1000 + i, 0x2222, 0x3333])
+        s.ev(name, P.END, 11, [0, 7, 0, 0])
+        outs, err, parser = P.run_traces(P.make_case_from(s.recs))
+        calls = [o for o in outs if o['name'] == name]
+        print('%s enclosing %d records: exception %s, the call reported %d time(s)' % (name, nested, err, len(calls)))
+        if err != '-' or len(calls) != 1:
+            print(f'VIOLATION property=C07 replay={path}')
+            return 1
+        return 0
     if 'case' not in rp:
         print('nothing to replay (no failing input was recorded):', r.get('no_longer_checks'))
         return 1
